@@ -48,9 +48,11 @@ class Check:
         self.nontrivial = set()
         self.configs = []
         self.extra = {}
+        self.alias = {}          # rule id -> id under which another property includes that rule
 
     # ---- bookkeeping
     def rule(self, rid, desc):
+        rid = self.alias.get(rid.split("@")[0], rid.split("@")[0]) + ("@" + rid.split("@", 1)[1] if "@" in rid else "")
         self.cur = rid
         self.rules.setdefault(rid, {"desc": desc, "obligations": 0, "discharged": 0, "instances": []})
         return rid
@@ -94,6 +96,14 @@ class Check:
                           f"(rule would pass vacuously)")
         else:
             self.ok(key, f"{count} >= {minimum}", nontrivial=False)
+
+    def include(self, module, rid, as_rid, facts, tier="quick"):
+        """run rule `rid` of another property's module under the id `as_rid` (properties that share anchors share rules)"""
+        self.alias[rid] = as_rid
+        try:
+            module.run(self, facts, tier, rid)
+        finally:
+            self.alias.pop(rid, None)
 
     def run_rule(self, rid, desc, fn):
         """run one rule; a missing anchor fails closed with a message that says so"""
